@@ -42,6 +42,16 @@ def check(case):
         tm = oracle.TextModel(text, version)
         if rm:
             g.rm(rm); tm.rm(rm)
+        # a refused line (an edge from a segment to an identifier carried by an edge / path: not a segment) is not part of the document
+        segs = [tm.name_of(r) for r in tm.recs if r.rt == "S"]
+        named = [tm.name_of(r) for r in tm.recs if r.rt in ("E", "L", "C", "P", "O", "U", "G") and tm.name_of(r)]
+        if segs and named and (len(lines) + len(rm or "")) % 2 == 0:
+            ref = "L\t%s\t+\t%s\t+\t*" % (segs[0], named[0]) if version == "gfa1" else "E\t*\t%s+\t%s+\t6\t8$\t0\t2\t*" % (segs[0], named[0])
+            try:
+                g.add_line(ref)
+                tm.add(oracle.tokenize(ref, version))
+            except gfapy.Error:
+                pass
         ttext = tm.text()
         want = oracle.components(ttext, version)
         got = sorted(sorted(s.name for s in c) for c in g.connected_components())
@@ -89,6 +99,8 @@ def cases(tier, seed):
                     continue
                 seen.add(key); keep.append(e)
             lines = [seg(s) for s in segs] + keep
+            if rng.random() < 0.5:
+                lines.append("P\tpz\tA+\t*" if version == "gfa1" else "O\tpz\tA+")      # a named line that is not a segment (no effect on the topology)
             rm = rng.choice([None, None, rng.choice(segs)])
             out.append((version, lines, rm))
     return out
